@@ -158,6 +158,7 @@ type Exec struct {
 	firstIter []*Term
 	sortFlag  *Term
 	flagCells []*Cell // values registered with package flag (assigned by flag.Parse)
+	flagNames map[*Cell]*Term
 	hints     []hintT
 }
 
